@@ -32,7 +32,7 @@ func runC11(c *Ctx, r *Rec) {
 	info := c.info("cdcn")
 	st := c.scanTables()
 	if len(st.problems) > 0 || len(st.matchers) == 0 || len(st.order) == 0 {
-		r.undecided("bind", "cdcn.scanner-tables", "", "cannot extract the scanner tables: "+strings.Join(st.problems, "; "))
+		r.skip("bind", "cdcn.scanner-tables", "", "cannot extract the scanner tables: "+strings.Join(st.problems, "; "))
 		return
 	}
 	defs, skipped, rules, err := parseCDSN(cdsnPath(c))
@@ -94,7 +94,7 @@ func runC11(c *Ctx, r *Rec) {
 		}
 		g := mk(src)
 		if g == nil || tok[tn] == nil {
-			r.undecided("D1-grammar-equals-scanner", construct, c.pos(st.matcherPos[tn]), "cannot build the automata")
+			r.skip("D1-grammar-equals-scanner", construct, c.pos(st.matcherPos[tn]), "cannot build the automata")
 			continue
 		}
 		if ok, w := subsetOf(g, tok[tn]); !ok {
